@@ -412,5 +412,5 @@ Proof.
     destruct Q5 as [Q5 Q6]. destruct (state_eqb (st (l_ss a)) done).
     - exact Q5.
     - cbn [app]. now apply Q6. }
-  Show. rewrite Hs. reflexivity.
+  do 4 f_equal. exact Hs.
 Qed.
